@@ -154,6 +154,9 @@ func fibRoots(h heap.IndexedHeap[int, string]) int {
 // Exec runs one case on the real heap package and checks every outcome against a map[int]kv oracle.
 func Exec(c hx.Case) (res hx.Result) {
 	comp := hx.HeaderGet(c.Header, "comp")
+	if hx.HeaderGet(c.Header, "huge") != "" {
+		return execHuge(c)
+	}
 	res = hx.Result{BadOp: -1}
 	bad := func(i int, sig string, format string, a ...any) {
 		if res.BadOp < 0 {
@@ -942,6 +945,7 @@ func Main(run *hx.Run) {
 	}
 
 	hardFamilies(run)
+	hugeFamilies(run)
 
 	if run.Thorough() {
 		// every history of length <= 6 over a 9-letter alphabet, cap 3 (index 3 is out of range), both orders
